@@ -62,6 +62,11 @@ type c10Reader struct {
 	countBad  bool
 	saved     int
 	reads     int
+	// recycle: the reader owns the buffers it hands out and uses them again for its next call (nothing
+	// says the data stay valid after that): what an earlier ReadTiles returned is overwritten when the
+	// next one starts
+	recycle bool
+	arena   [][]byte
 }
 
 func (r *c10Reader) Height() int { return r.p.H }
@@ -87,6 +92,15 @@ func (r *c10Reader) ReadTiles(tiles []tlog.Tile) (out [][]byte, err error) {
 	}()
 	r.reads++
 	res := r.res
+	if r.recycle {
+		for _, b := range r.arena {
+			for k := range b {
+				b[k] = 0xA5
+			}
+		}
+		r.arena = r.arena[:0]
+		defer func() { r.arena = append(r.arena, out...) }()
+	}
 	data := make([][]byte, len(tiles))
 	for i, t := range tiles {
 		p := t.Path()
@@ -255,7 +269,10 @@ func runC10(p *c10Params) *core.Result {
 		old = s
 	}
 	cnt := ref.StoredCount(N)
-	rd := &c10Reader{p: p, res: res, tree: tree, published: pub, N: N}
+	rd := &c10Reader{p: p, res: res, tree: tree, published: pub, N: N, recycle: p.Seed>>7&3 == 0}
+	if rd.recycle {
+		res.Probes["tile-reader-recycles-its-buffers"]++
+	}
 	root := tree.MTH(N)
 	reader := tlog.TileHashReader(tlog.Tree{N: N, Hash: tlog.Hash(root)}, rd)
 	reads := append([]c10Read{{Indexes: p.Indexes, Faults: p.Faults}}, p.More...)
